@@ -36,7 +36,7 @@ integers turned into size-1 slices + outer `[0]`                 `sliceSplitInts
 `Rechunk._pushdown_through_elemwise`                             `rechunkThroughMap`, `rechunkThroughZip`
 `Rechunk._pushdown_through_transpose`                            `rechunkThroughTranspose`
 `Rechunk._pushdown_through_expand_dims`                          `rechunkThroughExpandDims`
-`FromArray._accept_rechunk` (NumPy source)                       `rechunkIntoSrc`
+`FromArray._accept_rechunk` (NumPy source)                       `rechunkIntoSrc`; with a `_region`: `rechunkIntoRegion`
 `Expr.simplify` fixpoint (`_simplify_down` of a node, then the   `step` (first applicable rule at the root, else
    children's `_simplify_up`, then the children, top-down)          the children left to right), `optimize`
 `ArrayExpr._preserve_grid_contract` (decline a rewrite under a   `keepGrid`: under a grid-sensitive parent (`zip`,
@@ -247,6 +247,30 @@ def rechunkIntoSrc : Expr → Option Expr
   | .rechunk (.src id sh _) l => some (.src id sh l)
   | _ => none
 
+/-- source chunks that make the unit-step region `lo:hi` of an axis of length `n` read in chunks `tgt`:
+the part before the region, the target chunks, the part after it -/
+def regionAxisChunks (n : Nat) (s : PySlice) (tgt : List Nat) : List Nat :=
+  let lo := (s.istart n).toNat
+  let hi := (s.istop n).toNat
+  (if 0 < lo then [lo] else []) ++ tgt ++ (if hi < n then [n - hi] else [])
+
+def regionChunks : List Nat → List PySlice → Layout → Layout
+  | n :: ns, s :: ss, t :: l => regionAxisChunks n s t :: regionChunks ns ss l
+  | _, _, _ => []
+
+/-- a rechunk of a region read (`FromArray` with `_region`, here `slice (src …) region`) becomes the
+read itself: the source is chunked so that the region falls into the target chunks
+(`FromArray._accept_rechunk` → `_with_chunks`, region kept).  The rule checks that the new source
+chunks are a layout of the source and that slicing them yields exactly the target; else it declines. -/
+def rechunkIntoRegion : Expr → Option Expr
+  | .rechunk (.slice (.src id sh ch) idx) l =>
+    match allSlc? idx with
+    | some ss =>
+      let ch' := regionChunks sh ss l
+      if wfLayout sh ch' = true ∧ sliceChunks sh ch' idx = l then some (.slice (.src id sh ch') idx) else none
+    | none => none
+  | _ => none
+
 /-! ### one step, fixpoint -/
 
 /-- the rules `optimize` uses, in the order they are tried at a node -/
@@ -266,7 +290,8 @@ def rules : List (String × (Expr → Option Expr)) :=
    ("rechunkThroughZip", rechunkThroughZip),
    ("rechunkThroughTranspose", rechunkThroughTranspose),
    ("rechunkThroughExpandDims", rechunkThroughExpandDims),
-   ("rechunkIntoSrc", rechunkIntoSrc)]
+   ("rechunkIntoSrc", rechunkIntoSrc),
+   ("rechunkIntoRegion", rechunkIntoRegion)]
 
 /-- sound rules that are NOT part of `optimize` (no measure decrease) -/
 def extraRules : List (String × (Expr → Option Expr)) :=
@@ -498,10 +523,22 @@ theorem rechunkIntoSrc_dec : Decreasing rechunkIntoSrc := by
   · injection h with h; subst h; simp only [mu]; omega
   · exact absurd h (by simp)
 
+theorem rechunkIntoRegion_dec : Decreasing rechunkIntoRegion := by
+  intro e e' h
+  unfold rechunkIntoRegion at h
+  split at h
+  · split at h
+    · dsimp only at h
+      split at h
+      · injection h with h; subst h; simp only [mu]; omega
+      · exact absurd h (by simp)
+    · exact absurd h (by simp)
+  · exact absurd h (by simp)
+
 theorem rules_dec : ∀ r ∈ rules, Decreasing r.2 := by
   intro r hr
   simp only [rules, List.mem_cons, List.mem_nil_iff, or_false] at hr
-  rcases hr with h | h | h | h | h | h | h | h | h | h | h | h | h | h | h | h <;> subst h
+  rcases hr with h | h | h | h | h | h | h | h | h | h | h | h | h | h | h | h | h <;> subst h
   · exact sliceIdentityDrop_dec
   · exact sliceSliceFuse_dec
   · exact sliceThroughMap_dec
@@ -518,6 +555,7 @@ theorem rules_dec : ∀ r ∈ rules, Decreasing r.2 := by
   · exact rechunkThroughTranspose_dec
   · exact rechunkThroughExpandDims_dec
   · exact rechunkIntoSrc_dec
+  · exact rechunkIntoRegion_dec
 
 theorem firstRule_dec (rs : List (String × (Expr → Option Expr))) (h : ∀ r ∈ rs, Decreasing r.2) :
     ∀ e p, firstRule rs e = some p → mu p.2 < mu e := by
